@@ -377,3 +377,197 @@ Proof.
   intros Hinj HO. split; [apply sort_run; exact HO|].
   split; [eapply sorted_serial; [exact Hinj|apply sort_sorted]|apply sort_perm].
 Qed.
+
+(** * Part 4: the lock cannot deadlock *)
+
+Lemma alive_not_done c t : In t (alive c) -> thread_done c t = false.
+Proof.
+  unfold alive. rewrite filter_In. intros [_ H]. destruct (thread_done c t); [discriminate|reflexivity].
+Qed.
+
+Theorem no_deadlock m c0 lc :
+  lreach m c0 lc ->
+  (lk_holder lc = None /\ alive (lk_cfg lc) = []) \/ exists lc', lstep m lc lc'.
+Proof.
+  intros _. destruct lc as [[t|] c]; cbn.
+  - right. eexists. apply Release.
+  - destruct (alive c) as [|t r] eqn:E.
+    + left. split; reflexivity.
+    + right. exists (mkL (Some t) c). apply Acquire. apply alive_not_done. rewrite E. left. reflexivity.
+Qed.
+
+(** the lock is held by at most one thread, and only a thread that acquired it releases it *)
+Theorem lock_exclusive m a b :
+  lstep m a b ->
+  match lk_holder a, lk_holder b with
+  | None, Some _ => lk_cfg b = lk_cfg a            (* acquire: nothing else changes *)
+  | Some t, None => lk_cfg b = step_thread m t (lk_cfg a)   (* release after the holder's section *)
+  | _, _ => False
+  end.
+Proof. intros H. inversion H; subst; cbn; reflexivity. Qed.
+
+(** * Part 5: the exploration enumerates exactly the valid schedules *)
+
+Definition branch m fuel b last c path (t : N) : list (list N * config) :=
+  if costs c last t then
+    if 1 <=? b then explore m fuel (b - 1) (next_last c last t) (step_thread m t c) (t :: path)
+    else []
+  else explore m fuel b (next_last c last t) (step_thread m t c) (t :: path).
+
+Lemma explore_S m fuel b last c path :
+  explore m (S fuel) b last c path =
+  match alive c with
+  | [] => [(rev path, c)]
+  | _ :: _ => flat_map (branch m fuel b last c path) (alive c)
+  end.
+Proof. cbn [explore]. destruct (alive c); reflexivity. Qed.
+
+Lemma explore_sound m fuel : forall b last c path p c',
+  In (p, c') (explore m fuel b last c path) ->
+  exists sched, p = rev path ++ sched /\ valid_sched m b last c sched /\ c' = run m sched c.
+Proof.
+  induction fuel as [|fuel IH]; intros b last c path p c' H.
+  - cbn in H. destruct (alive c) eqn:E.
+    + destruct H as [H|[]]. inversion H; subst. exists []. rewrite app_nil_r.
+      split; [reflexivity|]. split; [constructor; exact E|reflexivity].
+    + destruct H.
+  - rewrite explore_S in H. destruct (alive c) as [|t0 al] eqn:E.
+    + destruct H as [H|[]]. inversion H; subst. exists []. rewrite app_nil_r.
+      split; [reflexivity|]. split; [constructor; exact E|reflexivity].
+    + apply in_flat_map in H. destruct H as [t [Ht H]]. unfold branch in H.
+      destruct (costs c last t) eqn:Ec.
+      * destruct (1 <=? b) eqn:Eb; [|destruct H].
+        apply IH in H. destruct H as [sched [Hp [Hv Hr]]].
+        exists (t :: sched). split; [rewrite Hp; cbn [rev]; rewrite <- app_assoc; reflexivity|].
+        split; [|rewrite run_cons; exact Hr].
+        constructor; [rewrite E; exact Ht|rewrite Ec; exact Eb|rewrite Ec; exact Hv].
+      * apply IH in H. destruct H as [sched [Hp [Hv Hr]]].
+        exists (t :: sched). split; [rewrite Hp; cbn [rev]; rewrite <- app_assoc; reflexivity|].
+        split; [|rewrite run_cons; exact Hr].
+        constructor; [rewrite E; exact Ht|rewrite Ec; reflexivity|rewrite Ec; exact Hv].
+Qed.
+
+Lemma explore_complete m : forall sched fuel b last c path,
+  valid_sched m b last c sched -> (length sched <= fuel)%nat ->
+  In (rev path ++ sched, run m sched c) (explore m fuel b last c path).
+Proof.
+  induction sched as [|t r IH]; intros fuel b last c path Hv Hl.
+  - inversion Hv; subst. rewrite app_nil_r.
+    destruct fuel; cbn; match goal with H : alive c = [] |- _ => rewrite H end; left; reflexivity.
+  - inversion Hv as [|? ? ? ? ? Hin Hc Hrest]; subst.
+    destruct fuel as [|fuel]; [cbn in Hl; lia|].
+    rewrite explore_S. destruct (alive c) as [|t0 al] eqn:E; [destruct Hin|].
+    apply in_flat_map. exists t. split; [exact Hin|]. unfold branch.
+    assert (Hl' : (length r <= fuel)%nat) by (cbn in Hl; lia).
+    replace (rev path ++ t :: r) with (rev (t :: path) ++ r)
+      by (cbn [rev]; rewrite <- app_assoc; reflexivity).
+    rewrite run_cons.
+    destruct (costs c last t) eqn:Ec.
+    + rewrite Hc. apply IH; assumption.
+    + apply IH; assumption.
+Qed.
+
+Lemma finals_sound m b c0 p c' :
+  In (p, c') (finals m b c0) -> valid_sched m b None c0 p /\ c' = run m p c0.
+Proof.
+  intro H. apply explore_sound in H. destruct H as [sched [Hp [Hv Hr]]].
+  change (p = sched) in Hp. subst. split; [assumption|reflexivity].
+Qed.
+
+Lemma finals_complete m b c0 sched :
+  valid_sched m b None c0 sched -> (length sched <= 200)%nat ->
+  In (sched, run m sched c0) (finals m b c0).
+Proof. intros Hv Hl. apply (explore_complete m sched 200 b None c0 [] Hv Hl). Qed.
+
+Lemma is_final_valid m b c0 sched :
+  is_final m b c0 sched = true -> valid_sched m b None c0 sched.
+Proof.
+  unfold is_final. rewrite existsb_exists. intros [[p c'] [Hin H]].
+  apply andb_prop in H as [Hlen Heq]. cbn [fst] in *.
+  apply Nat.eqb_eq in Hlen.
+  assert (p = sched).
+  { clear Hin. revert sched Hlen Heq. induction p as [|x p IH]; intros [|y s] Hlen Heq;
+      cbn in *; try discriminate; [reflexivity|].
+    apply andb_prop in Heq as [E Heq]. apply N.eqb_eq in E. cbn in E. subst.
+    f_equal. apply IH; [lia|exact Heq]. }
+  subst. apply finals_sound in Hin. apply Hin.
+Qed.
+
+Lemma not_serializable_spec m c0 sched :
+  not_serializable m c0 sched = true ->
+  forall sched', valid_sched m 0 None c0 sched' -> (length sched' <= 200)%nat ->
+                 obs_eqb (obs (run m sched c0)) (obs (run m sched' c0)) = false.
+Proof.
+  unfold not_serializable. rewrite forallb_forall. intros H sched' Hv Hl.
+  pose proof (H _ (finals_complete m 0 c0 sched' Hv Hl)) as X. cbn [snd] in X.
+  destruct (obs_eqb _ _); [discriminate|reflexivity].
+Qed.
+
+Lemma serializable_or_known_spec m b c0 :
+  serializable_or_known m b c0 = true ->
+  forall sched, valid_sched m b None c0 sched -> (length sched <= 200)%nat ->
+    known (trace m sched c0) = true
+    \/ exists sched', valid_sched m 0 None c0 sched'
+                      /\ obs_eqb (obs (run m sched c0)) (obs (run m sched' c0)) = true.
+Proof.
+  unfold serializable_or_known. rewrite forallb_forall. intros H sched Hv Hl.
+  pose proof (H _ (finals_complete m b c0 sched Hv Hl)) as X. cbn [fst snd] in X.
+  apply orb_prop in X as [X|X]; [left; exact X|right].
+  apply existsb_exists in X. destruct X as [o [Ho Heq]].
+  apply in_map_iff in Ho. destruct Ho as [[p c'] [Eo Hin]]. cbn [snd] in Eo. subst o.
+  apply finals_sound in Hin. destruct Hin as [Hv' Hr]. subst c'.
+  exists p. split; assumption.
+Qed.
+
+(** * Part 6: the write-back section after the fix touches nothing but the confirmation
+    flag of an entry that is still outstanding in the CURRENT log *)
+
+Lemma find_upsert_same e l :
+  (exists x, find_entry (e_id e) l = Some x) -> find_entry (e_id e) (upsert_entry e l) = Some e.
+Proof.
+  unfold find_entry. induction l as [|x l IH]; intros [y Hy]; cbn in *; [discriminate|].
+  destruct (e_id x =? e_id e) eqn:E.
+  - cbn. rewrite N.eqb_refl. reflexivity.
+  - cbn. rewrite E. apply IH. exists y. exact Hy.
+Qed.
+
+Lemma find_upsert_other e l id :
+  id <> e_id e -> find_entry id (upsert_entry e l) = find_entry id l.
+Proof.
+  unfold find_entry. intro H. induction l as [|x l IH]; cbn.
+  - destruct (e_id e =? id) eqn:E; [apply N.eqb_eq in E; congruence|reflexivity].
+  - destruct (e_id x =? e_id e) eqn:E.
+    + cbn. apply N.eqb_eq in E.
+      destruct (e_id e =? id) eqn:E1; [apply N.eqb_eq in E1; congruence|].
+      destruct (e_id x =? id) eqn:E2; [apply N.eqb_eq in E2; congruence|reflexivity].
+    + cbn. destruct (e_id x =? id); [reflexivity|exact IH].
+Qed.
+
+Lemma find_entry_id id l x : find_entry id l = Some x -> e_id x = id.
+Proof.
+  unfold find_entry. intro H. apply find_some in H. destruct H as [_ H]. apply N.eqb_eq in H. exact H.
+Qed.
+
+Theorem fresh_writeback_safe l s :
+  l_pc l = P_U7 ->
+  let s' := snd (step Fresh l s) in
+  st_outs s' = st_outs s /\ st_ctxs s' = st_ctxs s /\ st_child s' = st_child s
+  /\ forall id,
+      find_entry id (st_log s') = find_entry id (st_log s)
+      \/ exists cur, find_entry id (st_log s) = Some cur /\ outstanding cur = true
+                     /\ find_entry id (st_log s') = Some (set_conf cur true).
+Proof.
+  intro Hpc. unfold step. rewrite Hpc. cbn [l_todo tick].
+  destruct (l_todo l) as [|t r]; cbn [snd]; [repeat split; auto|].
+  cbn [set_log st_outs st_ctxs st_child st_log].
+  repeat split; try reflexivity. intro id.
+  destruct (find_entry (e_id t) (st_log s)) as [cur|] eqn:Ef; [|left; reflexivity].
+  destruct (outstanding cur && opt_eqb (e_excess cur) (e_excess t)) eqn:Eo; [|left; reflexivity].
+  apply andb_prop in Eo as [Eo _].
+  pose proof (find_entry_id _ _ _ Ef) as Hid.
+  destruct (N.eq_dec id (e_id t)) as [->|Hne].
+  - right. exists cur. split; [exact Ef|]. split; [exact Eo|].
+    assert (Hid' : e_id (set_conf cur true) = e_id t) by (cbn; exact Hid).
+    rewrite <- Hid'. apply find_upsert_same. exists cur. rewrite Hid'. exact Ef.
+  - left. apply find_upsert_other. cbn. congruence.
+Qed.
